@@ -56,6 +56,15 @@ func (p *Program) tableOfGlobal(g *ssa.Global) *Table {
 }
 
 func (p *Program) loadTable(td *TableDecl) error {
+	// a table declared again (by another contract file, for another property): the properties add up
+	if old := p.tables[td.Pkg+"."+td.Global]; old != nil {
+		for _, pr := range td.Props {
+			if !hasStr(old.Props, pr) {
+				old.Props = append(old.Props, pr)
+			}
+		}
+		return nil
+	}
 	pk := p.pkgs[td.Pkg]
 	if pk == nil {
 		return fmt.Errorf("table %s: package %s not loaded", td.Global, td.Pkg)
@@ -717,6 +726,22 @@ func (p *Program) tableOfSlice(t *Term) *Table {
 	}
 	if tb := p.tableOfRef(t.Args[0]); tb != nil && !tb.IsMap {
 		return tb
+	}
+	return nil
+}
+
+// tableElem: element idx of a slice value that denotes a slice table, or an if-then-else of slice
+// tables (an inlined callee returning one of two tables, merged at the join point): the read is the
+// same if-then-else over the literals. nil when the value is not of that shape.
+func (p *Program) tableElem(s, idx *Term) *Term {
+	if tb := p.tableOfSlice(s); tb != nil {
+		return tb.valTerm(idx)
+	}
+	if s != nil && s.Op == "ite" && len(s.Args) == 3 {
+		a, b := p.tableElem(s.Args[1], idx), p.tableElem(s.Args[2], idx)
+		if a != nil && b != nil && a.Sort == b.Sort {
+			return Ite(s.Args[0], a, b)
+		}
 	}
 	return nil
 }
